@@ -3,8 +3,7 @@
     encoder; every other statement leaves it alone.  Hence with no BITS directive everything is
     16-bit, and BITS n anywhere among the non-instruction statements before the first instruction
     puts every instruction in mode n.  The scoped half of the property ("instructions before it
-    keep the previous mode") is FALSE of the faithful model - codegen uses the single final mode -
-    and is refuted below; it is known finding C17-single-emission-mode. *)
+    keep the previous mode") holds since the mode is recorded with every ocode (fix in /repo). *)
 From Coq Require Import List ZArith String Bool.
 From Gosk Require Import Base.Bytes Model.Ast Model.Eval Model.Asm Model.Encoder Lemmas.AsmLemmas.
 Import ListNotations.
@@ -32,10 +31,21 @@ Proof.
 Qed.
 Print Assumptions C17_default16.
 
-(* the scoped statement fails: one instruction before a later [BITS 32] is emitted in 32-bit mode *)
+(** the scoped half: every mode-dependent ocode carries the mode that was in force where its statement stands, and codegen
+    encodes it in THAT mode whatever mode it is run with (fix in /repo: the mode is recorded per ocode; before it codegen used
+    the single mode left behind by the last BITS directive and this was refuted by [two_modes]) *)
+Theorem C17_codegen_uses_recorded_mode : forall E m m' st dol len o,
+  gen_ocode E m st dol len o = gen_ocode E m' st dol len o.
+Proof. intros E m m' st dol len o. destruct o; reflexivity. Qed.
+Print Assumptions C17_codegen_uses_recorded_mode.
+
+Theorem C17_statement_records_mode_in_force : forall E s op ops o,
+  In o (ocodes (do_mnemonic E s op ops)) -> In o (ocodes s) \/ ocode_mode o = None \/ ocode_mode o = Some (bmode s).
+Proof. intros E s op ops. exact (mnemonic_records_mode E s op ops). Qed.
+Print Assumptions C17_statement_records_mode_in_force.
+
 Definition two_modes : program :=
-  [SMnem "MOV" [ident "AX"; num 1]; SConfig CBits (FNum 32); SMnem "MOV" [ident "EAX"; num 1]]%string.
-Theorem C17_scoped_refuted :
-  exists bs d s, assemble gosk_encoder two_modes = Done bs d s /\ firstn 4 bs = [102; 184; 1; 0] (* 66 B8 01 00 = MOV AX,1 as 32-bit code *).
-Proof. eexists _, _, _. split; [vm_compute; reflexivity | reflexivity]. Qed.
-Print Assumptions C17_scoped_refuted.
+  [SMnem "MOV" [ident "AX"; num 1]; SConfig CBits (FNum 32); SMnem "MOV" [ident "EAX"; num 1]; SConfig CBits (FNum 16); SMnem "MOV" [ident "EAX"; num 2]]%string.
+Example C17_scoped_example :
+  exists d s, assemble gosk_encoder two_modes = Done ([184; 1; 0] ++ [184; 1; 0; 0; 0] ++ [102; 184; 2; 0; 0; 0]) d s.
+Proof. eexists _, _. vm_compute. reflexivity. Qed.
